@@ -329,6 +329,11 @@ impl Drop for SessionPool {
 // H6: read-only view of the idle map for oracles
 #[cfg(anytls_verif)]
 impl SessionPool {
+    /// handles of the pooled sessions, oldest first
+    pub async fn verif_sessions(&self) -> Vec<Arc<Session>> {
+        let sessions = self.idle_sessions.read().await;
+        sessions.values().map(|p| Arc::clone(&p.session)).collect()
+    }
     /// (seq, session id, closed, idle for) of every pooled session, oldest first
     pub async fn verif_idle(&self) -> Vec<(u64, u64, bool, Duration)> {
         let sessions = self.idle_sessions.read().await;
